@@ -29,6 +29,10 @@ STEPS = {
     "diamond": "a = x * y\nb = a + a\nc = a * b\nL = (c / (y * y + 1.0)).sum()",
     "shape-assign": "u = x * 1.0\nv = u[0]\nu.shape = (3, 2)\nL = (u * u).sum() + v.sum()",
     "inplace-leaf-view": "xv = x[1]\nL = (xv * y).sum() + x.sum()",
+    # chains of views (depth >= 2) that L's graph does not consume, around an in-place update of their family
+    "inplace-base-unused-view-chain": "u = x * 1.0\nv = u[:, 1:]\nw = v[0]\nu *= 2.0\nL = (u * u).sum()",
+    "inplace-deep-view-unused-middle": "u = +x\nv = u.T\nw = v[1:]\nw *= 2.0\nL = (u * y).sum()",
+    "setitem-unused-view-chain": "u = x + 0.0\nv = u[1]\nw = v[::2]\nu[:, :1] = 0.0\nL = (u * u).sum() + w.sum()",
 }
 BETWEEN = ["none", "null_grad", "view", "nonview-op", "inplace", "other-backward", "advanced-index", "copying-reshape", "as-setitem-value"]
 M = np.array([True, False, True])
